@@ -102,11 +102,13 @@ fn adaptor_expect(dgs: &[Vec<u8>], used: &[usize]) -> String {
     out.join(" ")
 }
 
+fn drain_peer(b: &UdpSocket, got: &mut Vec<Vec<u8>>) { let mut rb = [0u8; 4096]; let _ = b.set_nonblocking(true); while let Ok(n) = b.recv(&mut rb) { got.push(rb[..n].to_vec()); } let _ = b.set_nonblocking(false); }
+
 /// (b) one session: returns the canonical trace and the datagrams the peer received (keep-alive replies)
-fn session_run(imp: &str, rt: &tokio::runtime::Runtime, fr: &Frames, idx: &RepIndex, verify: bool, dgs: &[Vec<u8>], lockstep: bool) -> (Vec<String>, Vec<Vec<u8>>) {
+fn session_run(imp: &str, rt: &tokio::runtime::Runtime, fr: &Frames, idx: &RepIndex, verify: bool, dgs: &[Vec<u8>], lockstep: bool, cancel_us: Option<u64>) -> (Vec<String>, Vec<Vec<u8>>) {
     let (a, b) = pair();
     let mut feeder = Feeder::new(&b, dgs); feeder.lockstep = lockstep;
-    let mut trace = vec![]; let mut consumed = 0usize;
+    let mut trace = vec![]; let mut consumed = 0usize; let mut got: Vec<Vec<u8>> = vec![];
     let max_reads = fr.frames.len() + 8;
     let mut next_frame = 0usize;
     let mut account = |trace: &Vec<String>, consumed: &mut usize| {
@@ -117,8 +119,9 @@ fn session_run(imp: &str, rt: &tokio::runtime::Runtime, fr: &Frames, idx: &RepIn
         a.set_read_timeout(Some(Duration::from_secs(3))).unwrap();
         let mut f = BFramed::new(Box::new(BUdp::from(a)), Codec::new(mode_of(fr.compressed)));
         f.verify_version(verify);
-        for _ in 0..max_reads {
+        for k in 0..max_reads {
             feeder.top_up(consumed);
+            if k % 64 == 63 { drain_peer(&b, &mut got); }
             match guard(|| f.read()) {
                 None => { trace.push("PANIC".into()); break; },
                 Some(Ok(p)) => trace.push(idx.token(&p)),
@@ -131,9 +134,14 @@ fn session_run(imp: &str, rt: &tokio::runtime::Runtime, fr: &Frames, idx: &RepIn
         let _g = rt.enter();
         let mut f = AFramed::new(Box::new(AUdp::from(tokio::net::UdpSocket::from_std(a).unwrap())), Codec::new(mode_of(fr.compressed)));
         f.verify_version(verify);
-        for _ in 0..max_reads {
+        for k in 0..max_reads {
             feeder.top_up(consumed);
-            let r = guard(|| rt.block_on(async { tokio::time::timeout(Duration::from_secs(3), f.read()).await }));
+            if k % 64 == 63 { drain_peer(&b, &mut got); }
+            // cancel_us: the caller's own short timeout drops read() again and again (tokio only); nothing for 3 s = stalled
+            let r = match cancel_us {
+                None => guard(|| rt.block_on(async { tokio::time::timeout(Duration::from_secs(3), f.read()).await })),
+                Some(us) => guard(|| rt.block_on(async { let t0 = std::time::Instant::now(); loop { match tokio::time::timeout(Duration::from_micros(us), f.read()).await { Ok(r) => break Ok(r), Err(e) => if t0.elapsed() > Duration::from_secs(3) { break Err(e); } } } })),
+            };
             match r {
                 None => { trace.push("PANIC".into()); break; },
                 Some(Err(_)) => { trace.push("STALLED".into()); break; },
@@ -143,11 +151,9 @@ fn session_run(imp: &str, rt: &tokio::runtime::Runtime, fr: &Frames, idx: &RepIn
             account(&trace, &mut consumed);
         }
     }
-    // what the peer received
-    b.set_nonblocking(true).unwrap();
-    let mut got = vec![]; let mut rb = [0u8; 4096];
+    // what the peer received (collected every 64 reads as well: the socket buffer holds only a few hundred datagrams)
     std::thread::sleep(Duration::from_millis(1));
-    while let Ok(n) = b.recv(&mut rb) { got.push(rb[..n].to_vec()); }
+    drain_peer(&b, &mut got);
     (trace, got)
 }
 
@@ -164,7 +170,7 @@ fn pack(rng: &mut Rng, frames: &[Vec<u8>], style: u64) -> Vec<Vec<Vec<u8>>> {
     out
 }
 
-struct Case { imp: &'static str, compressed: bool, verify: bool, frames: Vec<Vec<u8>>, groups: Vec<usize>, lockstep: bool }
+struct Case { imp: &'static str, compressed: bool, verify: bool, frames: Vec<Vec<u8>>, groups: Vec<usize>, lockstep: bool, cancel_us: Option<u64> }
 
 /// regenerate a session case from its compact id: "<imp> <C|U> <seed> <nframes> <pack style> <big>"
 fn session_case(imp: &str, compressed: bool, cseed: u64, nframes: usize, style: u64, big: bool) -> Case {
@@ -175,14 +181,14 @@ fn session_case(imp: &str, compressed: bool, cseed: u64, nframes: usize, style: 
     let fr = Frames::new(compressed, frames);   // drops anything that is not one complete frame
     // styles 3 / 4 = styles 1 / 2 in lock-step (the peer waits for its packets to be read before it sends more)
     let packed = pack(&mut rng, &fr.frames, if style >= 3 { style - 2 } else { style });
-    Case { imp: if imp == "B" { "B" } else { "A" }, compressed, verify: cseed % 2 == 0, frames: fr.frames.clone(), groups: packed.iter().map(|g| g.len()).collect(), lockstep: style >= 3 }
+    Case { imp: if imp == "B" { "B" } else { "A" }, compressed, verify: cseed % 2 == 0, frames: fr.frames.clone(), groups: packed.iter().map(|g| g.len()).collect(), lockstep: style >= 3, cancel_us: None }
 }
 
 fn run_session_case(id: &str, c: &Case, rt: &tokio::runtime::Runtime, st: &mut Stats, out: Option<&mut Out>, rng: &mut Rng) -> bool {
     let fr = Frames::new(c.compressed, c.frames.clone()); let idx = RepIndex::new(&fr);
     let mut dgs: Vec<Vec<u8>> = vec![]; let mut i = 0;
     for g in &c.groups { dgs.push(fr.frames[i..i + g].concat()); i += g; }
-    let (trace, got) = session_run(c.imp, rt, &fr, &idx, c.verify, &dgs, c.lockstep);
+    let (trace, got) = session_run(c.imp, rt, &fr, &idx, c.verify, &dgs, c.lockstep, c.cancel_us);
     st.evaluations += 1;
     let mut ok = true;
     // Disconnected is produced by the empty terminator datagram; keep-alive replies go to the peer socket
@@ -401,18 +407,20 @@ fn write_case(imp: &str, rt: &tokio::runtime::Runtime, compressed: bool, packets
 
 /// keep-alives over real UDP sockets: long sessions of large datagrams (mostly >= 200-byte frames packed up to 1020 bytes) with a keep-alive
 /// every few frames; each keep-alive handed to the caller, each answered by exactly one 4-byte datagram, nothing else written
-pub fn keepalive_sessions(prop: &str, a: &Args, st: &mut Stats) {
+pub fn keepalive_sessions(prop: &str, a: &Args, st: &mut Stats) { keepalive_sessions_with(prop, a, st, None) }
+/// cancel_us = Some(t): tokio only, every read() wrapped in the caller's own timeout of t microseconds (the future is dropped when it fires)
+pub fn keepalive_sessions_with(prop: &str, a: &Args, st: &mut Stats, cancel_us: Option<u64>) {
     let rt = io_runtime();
     let mut rng = Rng::new(a.seed ^ 0x0C07_0D9);
-    for compressed in [true, false] { for imp in ["B", "A"] { for (nframes, style) in [(40usize, 1u64), (160, 1), (160, 2), (160, 3), (if a.thorough() { 1500 } else { 400 }, 1)] {
+    for compressed in [true, false] { for imp in ["B", "A"] { if cancel_us.is_some() && imp == "B" { continue; } for (nframes, style) in [(40usize, 1u64), (160, 1), (160, 2), (160, 3), (if a.thorough() { 1500 } else { 400 }, 1)] {
         let cseed = rng.next() % 100_000;
         let mut c = session_case(imp, compressed, cseed, nframes, style, true);
         // a keep-alive after every third frame, packed again
         let ka: Vec<u8> = if compressed { vec![1, 3, 0, 0] } else { vec![4, 3, 0, 0] };
         let mut frames = vec![]; for (i, f) in c.frames.iter().enumerate() { frames.push(f.clone()); if i % 3 == 2 { frames.push(ka.clone()); } }
         let packed = pack(&mut rng, &frames, if style >= 3 { style - 2 } else { style });
-        c.frames = frames; c.groups = packed.iter().map(|g| g.len()).collect();
-        let id = format!("udpka {imp} {} {cseed} {nframes} {style}", mode_tag(compressed));
+        c.frames = frames; c.groups = packed.iter().map(|g| g.len()).collect(); c.cancel_us = cancel_us;
+        let id = format!("udpka{} {imp} {} {cseed} {nframes} {style}", if cancel_us.is_some() { "c" } else { "" }, mode_tag(compressed));
         let before = st.failures.len();
         run_session_case(&id, &c, &rt, st, None, &mut rng);
         for f in st.failures.iter_mut().skip(before) { f.1 = f.1.replace("[C08 ", &format!("[{prop} udp ")); }
